@@ -1,5 +1,6 @@
 import Driver.Common
 import UralModel.Model.Quote
+import UralModel.Model.Canonicalize
 import UralModel.Gen.QuoteTables
 /-! Driver handler for `ural/quote.py` (C14; also used by C01/C02). -/
 open Lean Ural Ural.Quote
@@ -48,6 +49,15 @@ def handle (f : String) (j : Json) : Option Json :=
     let rest := [upperQuoted (upperQuoted s), safelyQuote (upperQuoted s), upperQuoted (safelyQuote s),
       safelyQuote (safelyQuote s)]
     some (jlist ((per ++ rest).map fun r => jstr (unchars r)))
+  | "qsl" =>
+    -- `safely_unquote_qsl` / `safely_quote_qsl` (the models `canonicalize_url`'s model uses) on the
+    -- pairs [(s, None), (s, s), ("", s)], and quote ∘ unquote on them
+    let s := chars (fieldStr j "s")
+    let qsl : List (List Char × Option (List Char)) := [(s, none), (s, some s), ([], some s)]
+    let pj (l : List (List Char × Option (List Char))) : Json :=
+      jlist (l.map fun (k, v) => jlist [jstr (unchars k), match v with | some x => jstr (unchars x) | none => .null])
+    some (jlist [pj (Canonicalize.unquoteQsl qsl), pj (Canonicalize.quoteQsl qsl),
+      pj (Canonicalize.quoteQsl (Canonicalize.unquoteQsl qsl))])
   | "pct" => some (bytesJson (pctStr (chars (fieldStr j "s"))))
   | "utf8seg" =>
     -- segmentation of a byte list: [["c", codepoint] | ["b", byte]]
